@@ -44,7 +44,7 @@ func c20Phone(ver consts.ProtocolVersionType) string {
 		return edge[k-1]
 	}
 	d := lens[vrt_Choose("digits", len(lens))]
-	if vrt_Tier() > 0 || d <= 4 {
+	if d <= 4 || (vrt_Tier() > 0 && d <= 6) {
 		p := vrt_String("phone", d)
 		for i := 0; i < d; i++ {
 			vrt_Assume(p[i] >= '0' && p[i] <= '9')
@@ -156,7 +156,7 @@ func VerifC20Frames() {
 	// for the heartbeat; the other commands, whose bodies are what differs, use one phone and serial
 	// (the header code does not depend on the command). Thorough tier: symbolic for every command.
 	phone, pre := "13812345678", uint16(7)
-	if cmd == consts.T0002HeartBeat || (vrt_Tier() > 0 && (cmd == consts.T0100Register || cmd == consts.T0200LocationReport || cmd == consts.T0102RegisterAuth)) {
+	if cmd == consts.T0002HeartBeat || (vrt_Tier() > 0 && cmd == consts.T0100Register) {
 		phone = c20Phone(ver)
 		pre = vrt_U16("serialBefore")
 	}
